@@ -76,3 +76,48 @@ impl Inputs {
         dedup_docs(v)
     }
 }
+
+/// C05 family (d): headers whose nine counts take extreme values (at most two non-small fields),
+/// followed by a little body: this is where `count - 1`, `(I + 1) * 2` and `reserve(count)` live.
+pub fn header_docs(format: &str) -> Vec<Doc> {
+    let small = ["0", "1", "2"];
+    let big = ["127", "128", "32767", "2147483647", "4294967295", "4294967296", "9223372036854775807", "9223372036854775808", "18446744073709551614", "18446744073709551615", "18446744073709551616"];
+    let bodies: [&[u8]; 4] = [b"", b"2\n", b"2\n3\n0\n", b"2 3\n1\ni0 x\nb0 y\nc\n"];
+    let mut out = Vec::new();
+    let mut push = |fields: &Vec<&str>| {
+        for n in [5usize, 6, 9] {
+            for body in bodies {
+                let mut v = format.as_bytes().to_vec();
+                for f in &fields[..n] {
+                    v.push(b' ');
+                    v.extend_from_slice(f.as_bytes());
+                }
+                v.push(b'\n');
+                v.extend_from_slice(body);
+                out.push(Doc::new("header", v));
+            }
+        }
+    };
+    for i in 0..9 {
+        for b1 in big {
+            for s in small {
+                let mut f: Vec<&str> = vec![s; 9];
+                f[0] = "9223372036854775807";
+                f[i] = b1;
+                push(&f);
+                f[0] = "3";
+                f[i] = b1;
+                push(&f);
+            }
+            for j in (i + 1)..9 {
+                for b2 in [big[4], big[6], big[9]] {
+                    let mut f: Vec<&str> = vec!["1"; 9];
+                    f[i] = b1;
+                    f[j] = b2;
+                    push(&f);
+                }
+            }
+        }
+    }
+    dedup_docs(out)
+}
